@@ -109,6 +109,107 @@ func runC20(r *Run) {
 	r.Rule("R3", "PATH/TABLE.constructor: every return of NewHaqq is preceded by MountKVStores/MountTransientStores/MountMemoryStores, WithPrecompiles(AvailablePrecompiles(…)), SetAnteHandler (via setAnteHandler), SetInitChainer/BeginBlocker/EndBlocker; LoadLatestVersion is called on the loadLatest edge; every store key constant used to wire a keeper is created by NewKVStoreKeys/NewTransientStoreKeys/NewMemoryStoreKeys")
 
 	// ---------- R1 ----------
+	detProcessLocalWrites(r, sc)
+	runC20Controls(r)
+
+	// ---------- R2 ----------
+	for _, id := range []string{"(*x/evm/keeper.Keeper).AddEVMExtensions", "(x/erc20/keeper.Keeper).RegisterERC20Extensions"} {
+		fn, ok := P.FnOK(id)
+		if !ok {
+			r.OK("R2", id+"#unreachable", "", "function does not exist on this tree")
+			continue
+		}
+		r.Check(!sc.S.Has(fn), "R2", id+"#unreachable", P.Pos(fnPos(fn)), "not reachable from any consensus root",
+			"the run-time precompile registry mutator is reachable from consensus code: it replaces the in-memory registry and records the new addresses in the params, but after a restart AvailablePrecompiles rebuilds only the static registry, so Precompiles() panics on the recorded address (the node halts or diverges)", sc.S.Chain(fn)...)
+	}
+	// generally: stores to (evm Keeper).precompiles only in WithPrecompiles / AddEVMExtensions
+	nP := 0
+	for _, fn := range P.Funcs {
+		if isTestSupport(P, fn) || fn.Synthetic != "" {
+			continue
+		}
+		eachInstr(fn, func(in ssa.Instruction) {
+			st, ok := in.(*ssa.Store)
+			if !ok {
+				return
+			}
+			if sn, f, ok := fieldOfAddr(st.Addr); ok && sn == "Keeper" && f == "precompiles" && pathHasSuffix(namedPkgPath(st.Addr.(*ssa.FieldAddr).X.Type()), "x/evm/keeper") {
+				nP++
+				owner := fnID(outermost(fn))
+				r.Check(owner == "(*x/evm/keeper.Keeper).WithPrecompiles" || owner == "(*x/evm/keeper.Keeper).AddEVMExtensions" || owner == "x/evm/keeper.NewKeeper", "R2", owner+"#writes-precompiles", P.Pos(instrPos(in)), "confirmed writer", "the precompile registry field is assigned outside WithPrecompiles/AddEVMExtensions")
+			}
+		})
+	}
+	r.Floor("R2", "stores to evm Keeper.precompiles", nP, 2)
+
+	// ---------- R3 ----------
+	nh, ok := P.FnOK("app.NewHaqq")
+	if !ok {
+		r.Bad("R3", "anchor/NewHaqq", "", "not found")
+		return
+	}
+	where := P.Pos(fnPos(nh))
+	isRet := func(in ssa.Instruction) bool { _, ok := in.(*ssa.Return); return ok && in.Block() != nh.Recover }
+	must := map[string]func(ci CallInfo) bool{
+		"MountKVStores":        func(ci CallInfo) bool { return ci.Name == "MountKVStores" },
+		"MountTransientStores": func(ci CallInfo) bool { return ci.Name == "MountTransientStores" },
+		"MountMemoryStores":    func(ci CallInfo) bool { return ci.Name == "MountMemoryStores" },
+		"WithPrecompiles(AvailablePrecompiles)": func(ci CallInfo) bool {
+			return ci.Name == "WithPrecompiles" && backSlice(argN(ci.Instr, 0)).HasCall(func(g CallInfo) bool { return g.Name == "AvailablePrecompiles" })
+		},
+		"setAnteHandler":  func(ci CallInfo) bool { return ci.Name == "setAnteHandler" },
+		"SetInitChainer":  func(ci CallInfo) bool { return ci.Name == "SetInitChainer" },
+		"SetBeginBlocker": func(ci CallInfo) bool { return ci.Name == "SetBeginBlocker" },
+		"SetEndBlocker":   func(ci CallInfo) bool { return ci.Name == "SetEndBlocker" },
+	}
+	for name, pred := range must {
+		w := Precedes(nh, isCallMatching(pred), isRet, nil)
+		r.Check(w == nil, "R3", "app.NewHaqq#"+name, where, "on every constructor path", "NewHaqq can return without "+name+": a restarted node would be wired differently from the one that produced the chain", P.witness(w)...)
+	}
+	// LoadLatestVersion on the loadLatest edge
+	ll := paramBoolEdges(nh, "loadLatest")
+	okLL := len(ll) > 0
+	isLoad := isCallMatching(func(ci CallInfo) bool { return ci.Name == "LoadLatestVersion" })
+	for _, e := range ll {
+		if w := (PathQuery{Fn: nh, StartBlock: e.From.Succs[e.Succ], Block: isLoad, Target: isRet}).Search(); w != nil {
+			okLL = false
+		}
+	}
+	r.Check(okLL, "R3", "app.NewHaqq#LoadLatestVersion", where, "LoadLatestVersion when loadLatest", "with loadLatest the constructor can return without LoadLatestVersion (the node would start from an empty state)")
+	// mounted keys ⊇ keys indexed for wiring
+	created := map[string]bool{}
+	eachCall(nh, func(ci CallInfo) {
+		if ci.Name == "NewKVStoreKeys" || ci.Name == "NewTransientStoreKeys" || ci.Name == "NewMemoryStoreKeys" {
+			backSlice(ci.Instr.Common().Args...).Any(func(v ssa.Value) bool {
+				if s, ok := constString(v); ok {
+					created[s] = true
+				}
+				return false
+			})
+		}
+	})
+	nIdx := 0
+	eachInstr(nh, func(in ssa.Instruction) {
+		l, ok := in.(*ssa.Lookup)
+		if !ok {
+			return
+		}
+		s, ok := constString(l.Index)
+		if !ok || !strings.Contains(namedName(l.Type()), "StoreKey") {
+			return
+		}
+		nIdx++
+		if !created[s] {
+			r.Bad("R3", "app.NewHaqq#store-key-created/"+s, P.Pos(instrPos(in)), "a keeper is wired with keys["+s+"] but that key is not created by NewKVStoreKeys/NewTransientStoreKeys/NewMemoryStoreKeys: the lookup yields nil and the store is never mounted")
+		}
+	})
+	r.Floor("R3", "store-key lookups in NewHaqq", nIdx, 25)
+	r.OK("R3", "app.NewHaqq#store-keys-created", where, fmt.Sprintf("%d created keys cover %d wiring lookups", len(created), nIdx))
+}
+
+// detProcessLocalWrites is rule R1 (also run over the positive-control package).
+func detProcessLocalWrites(r *Run, sc *Scopes) {
+	P := r.P
 	n, bad := 0, 0
 	for _, fn := range sc.S.HaqqFuncs() {
 		if isTestSupport(P, fn) || isGeneratedFile(P.FileOf(fnPos(fn))) {
@@ -216,98 +317,4 @@ func runC20(r *Run) {
 	if bad == 0 {
 		r.OK("R1", "scope-S", "", fmt.Sprintf("%d write(s) to process-local memory in consensus scope, all tabled", n))
 	}
-
-	// ---------- R2 ----------
-	for _, id := range []string{"(*x/evm/keeper.Keeper).AddEVMExtensions", "(x/erc20/keeper.Keeper).RegisterERC20Extensions"} {
-		fn, ok := P.FnOK(id)
-		if !ok {
-			r.OK("R2", id+"#unreachable", "", "function does not exist on this tree")
-			continue
-		}
-		r.Check(!sc.S.Has(fn), "R2", id+"#unreachable", P.Pos(fnPos(fn)), "not reachable from any consensus root",
-			"the run-time precompile registry mutator is reachable from consensus code: it replaces the in-memory registry and records the new addresses in the params, but after a restart AvailablePrecompiles rebuilds only the static registry, so Precompiles() panics on the recorded address (the node halts or diverges)", sc.S.Chain(fn)...)
-	}
-	// generally: stores to (evm Keeper).precompiles only in WithPrecompiles / AddEVMExtensions
-	nP := 0
-	for _, fn := range P.Funcs {
-		if isTestSupport(P, fn) || fn.Synthetic != "" {
-			continue
-		}
-		eachInstr(fn, func(in ssa.Instruction) {
-			st, ok := in.(*ssa.Store)
-			if !ok {
-				return
-			}
-			if sn, f, ok := fieldOfAddr(st.Addr); ok && sn == "Keeper" && f == "precompiles" && pathHasSuffix(namedPkgPath(st.Addr.(*ssa.FieldAddr).X.Type()), "x/evm/keeper") {
-				nP++
-				owner := fnID(outermost(fn))
-				r.Check(owner == "(*x/evm/keeper.Keeper).WithPrecompiles" || owner == "(*x/evm/keeper.Keeper).AddEVMExtensions" || owner == "x/evm/keeper.NewKeeper", "R2", owner+"#writes-precompiles", P.Pos(instrPos(in)), "confirmed writer", "the precompile registry field is assigned outside WithPrecompiles/AddEVMExtensions")
-			}
-		})
-	}
-	r.Floor("R2", "stores to evm Keeper.precompiles", nP, 2)
-
-	// ---------- R3 ----------
-	nh, ok := P.FnOK("app.NewHaqq")
-	if !ok {
-		r.Bad("R3", "anchor/NewHaqq", "", "not found")
-		return
-	}
-	where := P.Pos(fnPos(nh))
-	isRet := func(in ssa.Instruction) bool { _, ok := in.(*ssa.Return); return ok && in.Block() != nh.Recover }
-	must := map[string]func(ci CallInfo) bool{
-		"MountKVStores":        func(ci CallInfo) bool { return ci.Name == "MountKVStores" },
-		"MountTransientStores": func(ci CallInfo) bool { return ci.Name == "MountTransientStores" },
-		"MountMemoryStores":    func(ci CallInfo) bool { return ci.Name == "MountMemoryStores" },
-		"WithPrecompiles(AvailablePrecompiles)": func(ci CallInfo) bool {
-			return ci.Name == "WithPrecompiles" && backSlice(argN(ci.Instr, 0)).HasCall(func(g CallInfo) bool { return g.Name == "AvailablePrecompiles" })
-		},
-		"setAnteHandler":  func(ci CallInfo) bool { return ci.Name == "setAnteHandler" },
-		"SetInitChainer":  func(ci CallInfo) bool { return ci.Name == "SetInitChainer" },
-		"SetBeginBlocker": func(ci CallInfo) bool { return ci.Name == "SetBeginBlocker" },
-		"SetEndBlocker":   func(ci CallInfo) bool { return ci.Name == "SetEndBlocker" },
-	}
-	for name, pred := range must {
-		w := Precedes(nh, isCallMatching(pred), isRet, nil)
-		r.Check(w == nil, "R3", "app.NewHaqq#"+name, where, "on every constructor path", "NewHaqq can return without "+name+": a restarted node would be wired differently from the one that produced the chain", P.witness(w)...)
-	}
-	// LoadLatestVersion on the loadLatest edge
-	ll := paramBoolEdges(nh, "loadLatest")
-	okLL := len(ll) > 0
-	isLoad := isCallMatching(func(ci CallInfo) bool { return ci.Name == "LoadLatestVersion" })
-	for _, e := range ll {
-		if w := (PathQuery{Fn: nh, StartBlock: e.From.Succs[e.Succ], Block: isLoad, Target: isRet}).Search(); w != nil {
-			okLL = false
-		}
-	}
-	r.Check(okLL, "R3", "app.NewHaqq#LoadLatestVersion", where, "LoadLatestVersion when loadLatest", "with loadLatest the constructor can return without LoadLatestVersion (the node would start from an empty state)")
-	// mounted keys ⊇ keys indexed for wiring
-	created := map[string]bool{}
-	eachCall(nh, func(ci CallInfo) {
-		if ci.Name == "NewKVStoreKeys" || ci.Name == "NewTransientStoreKeys" || ci.Name == "NewMemoryStoreKeys" {
-			backSlice(ci.Instr.Common().Args...).Any(func(v ssa.Value) bool {
-				if s, ok := constString(v); ok {
-					created[s] = true
-				}
-				return false
-			})
-		}
-	})
-	nIdx := 0
-	eachInstr(nh, func(in ssa.Instruction) {
-		l, ok := in.(*ssa.Lookup)
-		if !ok {
-			return
-		}
-		s, ok := constString(l.Index)
-		if !ok || !strings.Contains(namedName(l.Type()), "StoreKey") {
-			return
-		}
-		nIdx++
-		if !created[s] {
-			r.Bad("R3", "app.NewHaqq#store-key-created/"+s, P.Pos(instrPos(in)), "a keeper is wired with keys["+s+"] but that key is not created by NewKVStoreKeys/NewTransientStoreKeys/NewMemoryStoreKeys: the lookup yields nil and the store is never mounted")
-		}
-	})
-	r.Floor("R3", "store-key lookups in NewHaqq", nIdx, 25)
-	r.OK("R3", "app.NewHaqq#store-keys-created", where, fmt.Sprintf("%d created keys cover %d wiring lookups", len(created), nIdx))
 }
